@@ -3,6 +3,7 @@ package main
 // time model (DESIGN.md §2.3): time.Time carries one Int (ns) in its ext field; wall = 0, loc = nil.
 
 import (
+	"math"
 	"math/big"
 
 	"golang.org/x/tools/go/ssa"
@@ -78,8 +79,8 @@ func init() {
 		if c, ok := asTerm(args[0]).constInt(); ok {
 			return FloatV{float64(c) / 1e9}
 		}
-		ex.unsupported("Duration.Seconds on symbolic duration")
-		return nil
+		// symbolic durations are only ever rendered in log messages: an opaque NaN marks the value as unusable
+		return FloatV{math.NaN()}
 	})
 	add("time.Sleep", icZero)
 	add("time.After", func(ex *Exec, fr *frame, fn *ssa.Function, args []Value, pos tokenPos) Value {
